@@ -1153,6 +1153,90 @@ def wait_succeeded(g):
 
 
 # ---------------------------------------------------------------------------------------
+# user code between the kernel wait and the use of what it reported (R-C03g)
+# ---------------------------------------------------------------------------------------
+
+def user_code_summary(prog):
+    """{q} of the functions that may run user code: they contain a call through a handler field of a library object
+    (analyses.CALLBACK_FIELDS: descriptor, task, timer, event, ... handlers), or they call -- directly or through a poll
+    method slot -- a function that does.  Fixpoint over the call graph; no function name is looked at."""
+    c = prog.__dict__.get('_h03_usercode')
+    if c is not None:
+        return c
+    from ..analyses import callback_kind
+    funcs = [f for f in prog.all_funcs() if f.blocks]
+    may = set()
+    calls = {}
+    for f in funcs:
+        u = prog.unit_of(f)
+        out = set()
+        for e in f.events():
+            if e['ev'] != 'call':
+                continue
+            if 'fnexpr' in e:
+                ck = callback_kind(e)
+                if ck and ck[0] == 'callback':
+                    may.add(f.q)
+                elif ck and ck[0] == 'method':
+                    out |= {t.q for t in prog.slot_targets(ck[1])}
+            elif e.get('callee'):
+                t = prog.resolve(u, e['callee'])
+                if t is not None:
+                    out.add(t.q)
+        calls[f.q] = out
+    changed = True
+    while changed:
+        changed = False
+        for q, out in calls.items():
+            if q not in may and out & may:
+                may.add(q)
+                changed = True
+    prog.__dict__['_h03_usercode'] = may
+    return may
+
+
+def user_code_event(prog, e):
+    """what user code the call event may run (None: none): a call through a handler field of a library object, a call of a
+    function (still a call after inlining) or of a poll-method slot that may reach one"""
+    if e['ev'] != 'call':
+        return None
+    from ..analyses import callback_kind
+    may = user_code_summary(prog)
+    if 'fnexpr' in e:
+        ck = callback_kind(e)
+        if ck and ck[0] == 'callback':
+            return '%s handler' % ck[1]
+        if ck and ck[0] == 'method' and any(t.q in may for t in prog.slot_targets(ck[1])):
+            return 'method slot %s' % ck[1]
+        return None
+    name = e.get('callee')
+    if name and any(f.name == name and f.q in may for f in prog.all_funcs()):
+        return '%s()' % name
+    return None
+
+
+def user_code_since_wait(prog, g):
+    """{(block, index): '' | description of user code that may have run since the last kernel wait (may-analysis)}"""
+    from ..core import forward
+    names = {f.name for f in prog.all_funcs() if f.q in user_code_summary(prog)}
+
+    def tr(e, s):
+        if e['ev'] != 'call':
+            return s
+        if e.get('callee') in WAITS:
+            return ''
+        if 'fnexpr' not in e and e.get('callee') not in names:
+            return s
+        u = user_code_event(prog, e)
+        if u:
+            from ..core import relpath
+            return '%s at %s' % (u, relpath(e.get('loc')) if e.get('loc') else '?')
+        return s
+    _, ev_in = forward(g, '', tr, lambda a, b: a or b)
+    return ev_in
+
+
+# ---------------------------------------------------------------------------------------
 # which descriptor variables denote an object that has left the active batch
 # ---------------------------------------------------------------------------------------
 
